@@ -7,7 +7,56 @@ use sos_test_utils::mock;
 use sos_vault::secret::{Secret, SecretMeta, SecretRow};
 use std::collections::HashMap;
 
-pub const TOKENS: [&str; 8] = ["v1", "v2", "v3", "v4", "v5", "v6", "v7", "v8"];
+pub const TOKENS: [&str; 9] = ["v1", "v2", "v3", "v4", "v5", "v6", "v7", "v8", "v9"];
+
+/// Directory for the plaintext sources of external files (outside every
+/// account directory).
+pub fn inputs_dir() -> std::path::PathBuf {
+    let d = std::env::var("VERIF_INPUTS")
+        .map(std::path::PathBuf::from)
+        .unwrap_or_else(|_| std::env::temp_dir().join(format!("verif-inputs-{}", std::process::id())));
+    let _ = std::fs::create_dir_all(&d);
+    d
+}
+
+pub const V9_MAIN: &str = "verif-v9-main.bin";
+pub const V9_ATTACHED: &str = "verif-v9-attached.bin";
+
+pub fn v9_bytes(which: &str) -> Vec<u8> {
+    let mut v = format!("external file {which} {}\n", marker("attachment", which)).into_bytes();
+    v.extend((0..5000u32).map(|i| (i % 253) as u8));
+    v
+}
+
+/// A file secret with an external file and a second external file attached
+/// as a custom field: one secret that owns two blobs.
+fn v9(label: &str) -> (SecretMeta, Secret) {
+    use sos_vault::secret::SecretRow;
+    let dir = inputs_dir();
+    let main = dir.join(V9_MAIN);
+    let att = dir.join(V9_ATTACHED);
+    let _ = std::fs::write(&main, v9_bytes(V9_MAIN));
+    let _ = std::fs::write(&att, v9_bytes(V9_ATTACHED));
+    let mut secret: Secret = main.try_into().expect("file secret");
+    let field: Secret = att.try_into().expect("file secret");
+    let field_meta = SecretMeta::new("attached file".to_string(), field.kind());
+    // a fixed field id keeps the value comparable across devices
+    let id = sos_core::SecretId::from_u128(0x0909_0909_0909_0909_0909_0909_0909_0909);
+    secret.add_field(SecretRow::new(id, field_meta, field));
+    (SecretMeta::new(label.to_string(), secret.kind()), secret)
+}
+
+fn is_v9(row: &SecretRow) -> bool {
+    use sos_vault::secret::FileContent;
+    let name_of = |s: &Secret| match s {
+        Secret::File { content: FileContent::External { name, .. }, .. } => Some(name.clone()),
+        _ => None,
+    };
+    name_of(row.secret()).as_deref() == Some(V9_MAIN)
+        && row.secret().user_data().fields().len() == 1
+        && name_of(row.secret().user_data().fields()[0].secret()).as_deref() == Some(V9_ATTACHED)
+        && row.meta().label() == format!("label v9 {}", marker("label", "v9"))
+}
 
 /// Marker carried by every plaintext class (also used by the C03 scan).
 pub fn marker(class: &str, token: &str) -> String {
@@ -38,6 +87,7 @@ pub fn value(token: &str) -> (SecretMeta, Secret) {
             mock::list(&label, items)
         }
         "v7" => mock::link(&label, "https://example.com/some/path?q=1"),
+        "v9" => v9(&label),
         _ => mock::password(&label, format!("pw-{}", marker("password", token)).into()),
     };
     if token != "v4" {
@@ -63,7 +113,13 @@ pub fn same_secret(a: &SecretRow, meta: &SecretMeta, secret: &Secret) -> bool {
 
 /// Token whose content the row carries, or a `?…` description.
 pub fn token_of(row: &SecretRow) -> String {
+    if is_v9(row) {
+        return "v9".to_string();
+    }
     for t in TOKENS {
+        if t == "v9" {
+            continue;
+        }
         let (meta, secret) = value(t);
         if same_secret(row, &meta, &secret) {
             return t.to_string();
